@@ -63,6 +63,9 @@ var contexts = []struct {
 	{"return-immutable", false, false},
 	{"return-error", false, false},
 	{"return-not", false, false},
+	// the self call is the LEFT operand of a short-circuit operator: the jump that follows it must still run
+	{"return-call-or-x", false, false},
+	{"return-call-and-x", false, false},
 	// two recursive sites of different shape in one function (frame reuse state must survive the alternation)
 	{"mixed-odd-returns", false, true},
 	{"mixed-even-returns", false, true},
@@ -105,7 +108,7 @@ func build(c Case) *gen.Program {
 		params = []string{"n", "a"}
 	case "n,a,b":
 		params = []string{"n", "a", "b"}
-	case "n,...r":
+	case "n,...r", "n,...v":
 		params, variadic = []string{"n", "r"}, true
 	}
 	// recursive call expression with updated arguments
@@ -136,6 +139,10 @@ func build(c Case) *gen.Program {
 		// pass the rest through a spread, growing it only at the first step so that arrays stay small
 		call = &gen.Call{F: callee, Args: []gen.Expr{next, I("r")}, Spread: true}
 	}
+	if c.Params == "n,...v" {
+		// explicit rest arguments that differ in every iteration (a re-used rest array would show)
+		call = &gen.Call{F: callee, Args: []gen.Expr{next, I("n"), B("*", I("n"), N("10"))}}
+	}
 	// base value
 	var base gen.Expr = N("100")
 	switch c.Params {
@@ -143,7 +150,7 @@ func build(c Case) *gen.Program {
 		base = I("a")
 	case "n,a,b":
 		base = &gen.ArrayLit{Elems: []gen.Expr{I("a"), I("b")}}
-	case "n,...r":
+	case "n,...r", "n,...v":
 		base = C("len", I("r"))
 	}
 	var body []gen.Stmt
@@ -156,6 +163,11 @@ func build(c Case) *gen.Program {
 		body = append(body, &gen.If{Cond: B("<", C("len", I("acc")), N("2")),
 			Then: []gen.Stmt{gen.Set(I("acc"), C("append", I("acc"), cap))}})
 		body = append(body, gen.Set(I("lastc"), cap))
+		if variadic {
+			// the variadic array of an earlier iteration stays what it was
+			body = append(body, &gen.If{Cond: B("<", C("len", I("racc")), N("2")),
+				Then: []gen.Stmt{gen.Set(I("racc"), C("append", I("racc"), I("r"), I("n")))}})
+		}
 	}
 	isZero := B("==", I("n"), N("0"))
 	baseRet := &gen.If{Cond: isZero, Then: []gen.Stmt{&gen.Return{X: base}}}
@@ -207,6 +219,10 @@ func build(c Case) *gen.Program {
 		body = append(body, baseRet, &gen.Return{X: &gen.ErrorE{X: call}})
 	case "return-not":
 		body = append(body, baseRet, &gen.Return{X: &gen.Un{Op: "!", X: call}})
+	case "return-call-or-x":
+		body = append(body, baseRet, &gen.Return{X: B("||", call, I("n"))})
+	case "return-call-and-x":
+		body = append(body, baseRet, &gen.Return{X: B("&&", call, I("n"))})
 	case "return-in-array":
 		body = append(body, baseRet, &gen.Return{X: &gen.Index{X: &gen.ArrayLit{Elems: []gen.Expr{call}}, I: N("0")}})
 	case "mixed-odd-returns":
@@ -224,12 +240,13 @@ func build(c Case) *gen.Program {
 		first = append(first, N("0"))
 	case "n,a,b":
 		first = append(first, N("0"), N("0"))
-	case "n,...r":
+	case "n,...r", "n,...v":
 		first = append(first, N("8"), N("9"))
 	}
 	main := []gen.Stmt{
 		gen.Def("acc", &gen.ArrayLit{}),
 		gen.Def("lastc", gen.Undef()),
+		gen.Def("racc", &gen.ArrayLit{}),
 		gen.Def("m", &gen.MapLit{}),
 		gen.Def("f", &gen.FuncLit{Params: params, VarArgs: variadic, Body: body}),
 		gen.Set(&gen.Sel{X: I("m"), Name: "f"}, I("f")),
@@ -387,7 +404,7 @@ func main() {
 		depths = append(depths, 300, 511, 682, 2047, 2048, 10000, 1000000)
 	}
 	var cases []Case
-	for _, ps := range []string{"n", "n,a", "n,a,b", "n,...r"} {
+	for _, ps := range []string{"n", "n,a", "n,a,b", "n,...r", "n,...v"} {
 		for locals := 0; locals <= 2; locals++ {
 			for _, capt := range []bool{false, true} {
 				for _, cx := range contexts {
